@@ -206,6 +206,30 @@ def C14_full : Prop :=
   ∀ (ms : ML) (inp : List Int), wfOs ms = true → ms ≠ .nil → (∀ x ∈ inp, inI32 x) →
     (∃ v, decodeObjMembers ms inp = .ok v false) → encodedWords ms inp = some (inp.map some)
 
+/-- *Snapshot objects are re-exposed as the same words* — proved for every object description
+without boolean members (every field of the `#[repr(C)]` struct is then four bytes wide): the
+words returned by `encode` are exactly the words the object was decoded from.  The excluding
+hypothesis `noBool ms` is the negation of the classifier of the open finding D25. -/
+theorem object_words_reexposed_partial (ms : ML) (inp : List Int) (hwf : wfOs ms = true)
+    (hnb : noBool ms = true) (hne : ms ≠ .nil) (hi : ∀ x ∈ inp, inI32 x)
+    (hd : ∃ v, decodeObjMembers ms inp = .ok v false) : encodedWords ms inp = some (inp.map some) :=
+  encodedWords_noBool ms inp hwf hnb hne hi hd
+
+/-- Which shipped snapshot objects the hypothesis excludes: exactly the four of D25. -/
+theorem tie_objects_with_bool :
+    ((Tw.Gen.Spec_tw05.spec.objects.filter fun s => !noBool s.members).map (·.name)) = [] ∧
+    ((Tw.Gen.Spec_tw06.spec.objects.filter fun s => !noBool s.members).map (·.name)) = [] ∧
+    ((Tw.Gen.Spec_tw07.spec.objects.filter fun s => !noBool s.members).map (·.name))
+      = ["player_input", "de_client_info", "damage"] ∧
+    ((Tw.Gen.Spec_ddnet.spec.objects.filter fun s => !noBool s.members).map (·.name))
+      = ["ddnet_spectator_info"] := by
+  decide +kernel
+
+example : wfOs Tw.Gen.Spec_tw06.obj_character.members = true ∧ noBool Tw.Gen.Spec_tw06.obj_character.members = true ∧
+    (∃ v, decodeObjMembers Tw.Gen.Spec_tw06.obj_projectile.members [1, 2, 3, 4, 5, 6] = .ok v false) := by
+  refine ⟨by decide, by decide, ?_⟩
+  exact ⟨.cons (.int 1) (.cons (.int 2) (.cons (.int 3) (.cons (.int 4) (.cons (.int 5) (.cons (.int 6) .nil))))), by decide⟩
+
 /-- D25 in the model: the 0.7 object `DeClientInfo` decodes 58 zero words, `encode` returns 54
 words, two of them containing padding bytes. -/
 theorem obj_bool_witness :
